@@ -2,7 +2,6 @@ package main
 
 import (
 	"fmt"
-	"strings"
 
 	"golang.org/x/tools/go/ssa"
 )
@@ -237,103 +236,50 @@ func runC13(c *Checker) {
 	c.checkCRCEmitters()
 }
 
-// checkCRCEmitters: the two functions that emit sections call the checksum on
-// the window table_id … last byte before CRC_32 and place the four bytes
-// directly after it (value-flow rule on the resolved call sites).
+// checkCRCEmitters: the two functions that emit sections are interpreted with
+// an uninterpreted ComputeCRC that records its input window (the machinery of
+// C09 and C14) on a few layouts each; only the checksum clause is compared:
+// the window is the emitted section from table_id to the byte before CRC_32
+// (stuffing included) and the four result bytes follow it directly.
 func (c *Checker) checkCRCEmitters() {
-	crcFn, err := c.P.Func(":ComputeCRC")
-	if err != nil {
-		return
-	}
-	// scte35 UpdateData
-	if fn, err := c.P.Func("scte35:(*scte35).UpdateData"); err != nil {
-		c.undecided("C13.emitter", "scte35:(*scte35).UpdateData", "anchor", err.Error())
-	} else {
-		c.analysed[fn.String()] = true
-		calls := callsTo(fn, crcFn)
-		c.floorCheck("C13.emitter ComputeCRC call sites in UpdateData", len(calls), 1)
-		for _, ci := range calls {
-			arg := sx(ci.Common().Args[0])
-			// expected: D[:len(D)-4] for the buffer D that is returned
-			var bufs []string
-			for _, b := range fn.Blocks {
-				for _, ins := range b.Instrs {
-					if r, ok := ins.(*ssa.Return); ok && len(r.Results) == 1 {
-						bufs = append(bufs, sx(r.Results[0]))
-					}
-				}
-			}
-			ok := false
-			var D string
-			for _, d := range bufs {
-				if arg == fmt.Sprintf("%s[:(len(%s)-4)]", d, d) {
-					ok, D = true, d
-				}
-			}
-			c.check("C13.emitter", "scte35:(*scte35).UpdateData", "ComputeCRC argument is returned_buffer[:len-4] (table_id … byte before CRC_32)", ok, "argument is "+arg+", returned "+strings.Join(bufs, "|"))
-			if !ok {
+	{
+		shapes := s35Shapes(false)
+		n, bad, first := 0, 0, ""
+		for i, sh := range shapes {
+			if i%17 != 0 || sh.pointer != 0 {
 				continue
 			}
-			// the result is copied to D[len(D)-4:]
-			found := false
-			for _, cc := range allCalls(fn) {
-				if calleeName(cc) == "builtin:copy" {
-					dst, src := sx(cc.Common().Args[0]), sx(cc.Common().Args[1])
-					if src == sx(ci.(*ssa.Call)) && dst == fmt.Sprintf("%s[(len(%s)-4):]", D, D) {
-						found = instrDominates(ci, cc)
+			for _, st := range []int{0, 3} {
+				n++
+				if d := c.s35CRCCase(sh, st); d != "" {
+					bad++
+					if first == "" {
+						first = fmt.Sprintf("%s, %d alignment_stuffing bytes: %s", sh.name, st, d)
 					}
 				}
 			}
-			c.check("C13.emitter", "scte35:(*scte35).UpdateData", "CRC bytes copied to returned_buffer[len-4:] after the call", found, "no copy(buffer[len-4:], crc) dominated by the call")
-			// every other store/copy into the buffer precedes the CRC call
-			late := ""
-			for _, cc := range allCalls(fn) {
-				if calleeName(cc) == "builtin:copy" && instrDominates(ci, cc) {
-					dst := sx(cc.Common().Args[0])
-					if dst != fmt.Sprintf("%s[(len(%s)-4):]", D, D) {
-						late = dst
-					}
-				}
-			}
-			for _, b := range fn.Blocks {
-				for _, ins := range b.Instrs {
-					if st, ok := ins.(*ssa.Store); ok && instrDominates(ci, st) {
-						if strings.Contains(sx(st.Addr), D) && !strings.Contains(sx(st.Addr), ".data") {
-							late = sx(st.Addr)
-						}
-					}
-				}
-			}
-			c.check("C13.emitter", "scte35:(*scte35).UpdateData", "no write into the section after its CRC is computed", late == "", "write to "+late+" after ComputeCRC")
 		}
+		c.check("C13.emitter", "scte35:(*scte35).UpdateData", "CRC_32 of the emitted section = ComputeCRC(table_id … byte before CRC_32, alignment stuffing included), stored in the last four bytes; length agrees with section_length", bad == 0, fmt.Sprintf("%d of %d layouts fail; first: %s", bad, n, first))
+		c.floorCheck("C13.emitter SCTE-35 layouts", n, 8)
 	}
-	// psi FilterPMTPacketsToPids
-	if fn, err := c.P.Func("psi:FilterPMTPacketsToPids"); err != nil {
-		c.undecided("C13.emitter", "psi:FilterPMTPacketsToPids", "anchor", err.Error())
-	} else {
-		c.analysed[fn.String()] = true
-		calls := callsTo(fn, crcFn)
-		c.floorCheck("C13.emitter ComputeCRC call sites in FilterPMTPacketsToPids", len(calls), 1)
-		for _, ci := range calls {
-			call := ci.(*ssa.Call)
-			sl, ok := call.Call.Args[0].(*ssa.Slice)
-			if !ok || sl.High != nil || sl.Low == nil {
-				c.check("C13.emitter", "psi:FilterPMTPacketsToPids", "ComputeCRC argument is section_buffer[1+pointer_field:]", false, "argument is "+sx(call.Call.Args[0]))
-				continue
-			}
-			lo := sx(sl.Low)
-			okLo := strings.HasPrefix(lo, "(1+") && strings.Contains(lo, "PointerField(")
-			c.check("C13.emitter", "psi:FilterPMTPacketsToPids", "ComputeCRC window starts at 1 + pointer_field (table_id)", okLo, "window starts at "+lo)
-			// result appended to the same buffer
-			found := false
-			for _, cc := range allCalls(fn) {
-				if calleeName(cc) == "builtin:append" && len(cc.Common().Args) == 2 {
-					if cc.Common().Args[1] == ssa.Value(call) && cc.Common().Args[0] == sl.X {
-						found = true
+	{
+		n, bad, first := 0, 0, ""
+		for _, s := range pmt14Shapes {
+			for j, pc := range pmt14PidCases(s) {
+				if len(pc.pids) == 0 || pc.name != "all streams" && pc.name != "first stream" {
+					continue
+				}
+				_ = j
+				n++
+				if d := c.filterCRCCase(s, pc); d != "" {
+					bad++
+					if first == "" {
+						first = fmt.Sprintf("%s, PIDs %v: %s", s.name, pc.pids, d)
 					}
 				}
 			}
-			c.check("C13.emitter", "psi:FilterPMTPacketsToPids", "CRC appended directly to the buffer it was computed over", found, "no append(buffer, ComputeCRC(buffer[...])...)")
 		}
+		c.check("C13.emitter", "psi:FilterPMTPacketsToPids", "CRC_32 of the emitted section = ComputeCRC(table_id … byte before CRC_32) over the bytes the returned packets carry (pointer_field and filler excluded), stored directly after", bad == 0, fmt.Sprintf("%d of %d cases fail; first: %s", bad, n, first))
+		c.floorCheck("C13.emitter PMT filter cases", n, 6)
 	}
 }
